@@ -75,6 +75,117 @@ func checkC16(c *Check) {
 	} else {
 		checkASCIIPredicate(c, "R6", fi.Name(), fi.Info(), nil, fi.Decl.Body, true)
 	}
+	c.Rule("R6b", "without SMTPUTF8 (mangleUTF8 set) every reply leaves wrapErr through the mask, applied to the final text: no condition other than the flag skips it and no text is stored after it", 1)
+	if r := c.need("R6b", "internal/endpoint/smtp", "Endpoint", "wrapErr"); r != nil {
+		info := r.Info
+		flag := paramObjs(r.FI)["mangleUTF8"]
+		isMsgField := func(e ast.Expr) bool { fv := fieldOf(info, e); return fv != nil && fv.Name() == "Message" }
+		// the mask: a store to X.Message of a builder's text where the builder is filled in a range over X.Message,
+		// or of f(X.Message) with f a function of this package that carries the mask itself
+		var ranged []*ast.RangeStmt
+		ast.Inspect(r.FI.Decl.Body, func(n ast.Node) bool {
+			if rs, ok := n.(*ast.RangeStmt); ok && isMsgField(rs.X) {
+				ranged = append(ranged, rs)
+			}
+			return true
+		})
+		isMask := func(pt Pt) bool {
+			return nodeAssigns(pt.Node(), func(lhs, rhs ast.Expr) bool {
+				if !isMsgField(lhs) {
+					return false
+				}
+				call, ok := ast.Unparen(rhs).(*ast.CallExpr)
+				if !ok {
+					return false
+				}
+				if methodName(call) == "String" && len(call.Args) == 0 {
+					b := objOf(info, callRecv(call))
+					for _, rs := range ranged {
+						if rs.End() < call.Pos() && b != nil && mentions(info, rs.Body, b) && sameExpr(rs.X, lhs) {
+							return true
+						}
+					}
+					return false
+				}
+				if fn := callee(info, call); fn != nil && fn.Pkg() == r.FI.Obj.Pkg() && len(call.Args) == 1 && sameExpr(call.Args[0], lhs) {
+					if d := c.P.DeclOf(fn); d != nil && d.Decl.Body != nil {
+						has := false
+						ast.Inspect(d.Decl.Body, func(n ast.Node) bool {
+							if rs, ok := n.(*ast.RangeStmt); ok && len(d.Decl.Type.Params.List) == 1 && len(d.Decl.Type.Params.List[0].Names) == 1 && objOf(d.Info(), rs.X) == d.Info().Defs[d.Decl.Type.Params.List[0].Names[0]] {
+								has = true
+							}
+							return true
+						})
+						if has {
+							return true
+						}
+					}
+				}
+				return false
+			})
+		}
+		textReturn := func(pt Pt) bool {
+			_, ret := r.F.Exit(pt)
+			if ret == nil || len(ret.Results) != 1 {
+				return false
+			}
+			e := ast.Unparen(ret.Results[0])
+			if isNilIdent(info, e) {
+				return false
+			}
+			// a literal reply with a constant text needs no mask if that text is ASCII
+			if ue, ok := e.(*ast.UnaryExpr); ok {
+				if cl, ok := ue.X.(*ast.CompositeLit); ok {
+					for _, el := range cl.Elts {
+						if kv, ok := el.(*ast.KeyValueExpr); ok {
+							if id, ok := kv.Key.(*ast.Ident); ok && id.Name == "Message" {
+								if sv, ok := constString(info, kv.Value); ok {
+									ascii := true
+									for i := 0; i < len(sv); i++ {
+										if sv[i] >= 0x80 {
+											ascii = false
+										}
+									}
+									return !ascii
+								}
+							}
+						}
+					}
+				}
+			}
+			return true
+		}
+		msg := ""
+		if flag == nil {
+			msg = "undecided: wrapErr has no mangleUTF8 parameter"
+		} else {
+			world := r.F.World(func(atom ast.Expr) (bool, bool) {
+				if objOf(info, atom) == flag {
+					return true, true
+				}
+				return false, false
+			})
+			var masks []Pt
+			for _, pt := range r.F.Points() {
+				if isMask(pt) {
+					masks = append(masks, pt)
+				}
+			}
+			if len(masks) == 0 {
+				msg = "undecided: no store of the masked text found"
+			} else if path, f := r.F.Reach(Query{From: r.Entry(), Inclusive: true, Target: textReturn, Avoid: isPt(masks), AvoidEdge: world}); f {
+				msg = "a reply to a client without SMTPUTF8 can leave unmasked (the mask is skipped on a condition other than the flag): " + r.F.Describe(path)
+			} else {
+				laterStore := func(pt Pt) bool {
+					return !isMask(pt) && nodeAssigns(pt.Node(), func(lhs, rhs ast.Expr) bool { return isMsgField(lhs) })
+				}
+				if path, f := r.F.Reach(Query{From: masks, Target: laterStore}); f {
+					msg = "reply text is stored after the mask was applied: " + r.F.Describe(path)
+				}
+			}
+		}
+		c.Hold("R6b", "wrapErr:mask-dominates-reply", r.FI.Decl.Pos(), msg == "", msg)
+	}
 }
 
 // ---------------------------------------------------------------------------
